@@ -238,6 +238,8 @@ fn string_of(class: &str, salt: u64) -> String {
         "utf8" => format!("näme-{}-\u{1F600}\u{4e2d}\u{00e9}", salt % 1000),
         "long" => "L".repeat(300 + (salt % 50) as usize),
         "quote" => format!("q\"\\\n\t{}", salt % 1000),
+        // text that happens to look like a number or a boolean: it is text all the same
+        "numeric" => ["007", "+15551234567", "18446744073709551615", "1.10", "1e3", "true", "0404", "-0", "False", " 12", "1_000", "NaN"][(salt % 12) as usize].to_string(),
         _ => format!("a{}", salt % 100000),
     }
 }
